@@ -72,6 +72,24 @@ ENTRIES = [
     ('strof_col_own_u8', strof(col(own('u8')))),
 ]
 
+# FlatStack<R, S> entries: name -> (region expression, index container)
+FS_ENTRIES = [
+    ('fs_str_vec', STR, 'vec'),
+    ('fs_sl_str_vec', sl(STR), 'vec'),
+    ('fs_mir_usize_vec', mir('usize'), 'vec'),
+    ('fs_mir_usize_iopt', mir('usize'), 'iopt'),
+    ('fs_mir_usize_ilist', mir('usize'), 'ilist'),
+    ('fs_con_str_iopt', con(STR, 'iopt'), 'iopt'),
+    ('fs_con_str_ilist', con(STR, 'vec'), 'ilist'),
+    ('fs_con_str_vec', con(STR, 'iopt'), 'vec'),
+    ('fs_cols_str_iopt', cols(STR, 'iopt'), 'iopt'),
+    ('fs_cols_con_iopt', cols(col(con(STR, 'iopt')), 'iopt'), 'iopt'),
+    ('fs_col_str_vec', col(STR), 'vec'),
+    ('fs_vecr_u64_iopt', vecr('u64'), 'iopt'),
+    ('fs_opt_str_vec', opt(STR), 'vec'),
+    ('fs_con_sl_str_iopt', con(sl(STR), 'iopt'), 'iopt'),
+]
+
 def by_name(): return dict(ENTRIES)
 
 # ---------------------------------------------------------------- static attributes
@@ -279,6 +297,33 @@ def gen_rust():
     out.append('}')
     out.append('')
     out.append('pub const NAMES: &[&str] = &[' + ', '.join(f'"{n}"' for n, _ in ENTRIES) + '];')
+    out.append('')
+    # Caps impls for regions that only occur under a FlatStack entry
+    for name, e, o in FS_ENTRIES:
+        ty = rust_type(e)
+        if ty in seen: continue
+        seen[ty] = name
+        fs = forms(e)
+        out.append(f'impl Caps for {ty} {{')
+        out.append(f'    fn nforms() -> u32 {{ {len(fs)} }}')
+        out.append('    fn push_form(&mut self, v: &Self::Owned, form: u32) -> Self::Index {')
+        out.append('        match form {')
+        for i, (fname, expr) in enumerate(fs):
+            if i > 0: out.append(f'            {i} => {expr}, // {fname}')
+        out.append(f'            _ => {fs[0][1]}, // {fs[0][0]}')
+        out.append('        }')
+        out.append('    }')
+        out.append('    fn push_item(&mut self, src: &Self, i: Self::Index, owned: bool) -> Self::Index { push_item_generic(self, src, i, owned) }')
+        out.append('}')
+    out.append('pub fn dispatch_fs(name: &str, ops: &[crate::fs::FsOp]) -> Option<Vec<U>> {')
+    out.append('    Some(match name {')
+    for name, e, o in FS_ENTRIES:
+        rt = rust_type(e)
+        ict = rust_ic(o, f'<{rt} as Region>::Index')
+        out.append(f'        "{name}" => crate::fs::run_fs::<{rt}, {ict}>(ops),')
+    out.append('        _ => return None,')
+    out.append('    })')
+    out.append('}')
     return '\n'.join(out) + '\n'
 
 # ---------------------------------------------------------------- Coq
@@ -331,12 +376,24 @@ def coq_term(e):
 def gen_coq():
     out = ['(* GENERATED by tools/catalogue.py -- do not edit *)',
            'From FC Require Import Base.Res Base.Utf8 Index.IC Index.Stride Region.Region Region.Owned Region.Simple',
-           '  Region.Slice Region.Collapse Region.Consec Region.Columns Region.Items Model.Wire Model.Pairs.',
+           '  Region.Slice Region.Collapse Region.Consec Region.Columns Region.Items Model.Wire Model.Pairs Model.FSMachine.',
            'Set Implicit Arguments.', '',
            'Definition entry (chk : bool) (n : N) : option MRegion :=',
            '  match n with']
     for i, (name, e) in enumerate(ENTRIES):
         out.append(f'  | {i}%N => Some {coq_term(e)}  (* {name} *)')
+    out.append('  | _ => None')
+    out.append('  end.')
+    out.append('')
+    out.append('Definition fs_entry (chk : bool) (n : N) : option FSM :=')
+    out.append('  match n with')
+    for i, (name, e, o) in enumerate(FS_ENTRIES):
+        ik = idx_kind(e)
+        if o == 'vec': ic = f'(vec_ic _ {idx_size(ik)})'
+        else:
+            base = {'iopt': 'index_optimized', 'ilist': 'index_list'}[o]
+            ic = f'(ic_nat {base})' if ik == 'usize' else base
+        out.append(f'  | {i}%N => Some (@Build_FSM {coq_term(e)} {ic})  (* {name} *)')
     out.append('  | _ => None')
     out.append('  end.')
     return '\n'.join(out) + '\n'
